@@ -726,7 +726,10 @@ def code_to_spec_questions(ctx, cfgs, obs):
                         w.replace("i", "ｉ") if "i" in w else "ｉ" + w} - {w}
             for k in KINDS:
                 obs.add(cid, k, w, tag="reserved-word")
-            kinds = KINDS if not ctx.quick else (["any", KINDS[1 + wi % 5]] if full else [KINDS[wi % 6]])
+            if cid.endswith(".default"):
+                kinds = KINDS if not ctx.quick else ["any", KINDS[1 + wi % 5]]
+            else:
+                kinds = ["any", KINDS[1 + wi % 5], KINDS[1 + (wi + 2) % 5]] if not ctx.quick else [KINDS[wi % 6]]
             for v in sorted(variants):
                 for k in kinds:
                     obs.add(cid, k, v, tag="reserved-variant")
@@ -753,7 +756,7 @@ def code_to_spec_questions(ctx, cfgs, obs):
             ctx.drift("%s: filter_id('abc', 'all') returned %r (the I-layer expects ValueError)" % (cid, o))
         obs.maybe_flush()
     # seeded random strings: ASCII identifiers, ASCII with punctuation, unicode, reserved words in noise
-    n_rand = ctx.pick(12000, 240000)
+    n_rand = ctx.pick(12000, 160000)
     cids = list(cfgs)
     idc = [ord(c) for c in "abeimnostuxzAEINTUX019__"]
     for i in range(n_rand):
@@ -802,8 +805,9 @@ def run(ctx):
         if cid in defaults:
             for k in KINDS:
                 jobs.append({"cid": cid, "kinds": [k], "L": L0, "inv": ctx.pick(["TypeOK", "Emit"], ["PipeAgrees", "TypeOK", "Emit"])})
-        else:
-            jobs.append({"cid": cid, "kinds": KINDS, "L": L1, "inv": ["PipeAgrees", "TypeOK", "Emit"]})
+        else:   # (the thorough tier goes one character further for the configurations where stropping has something to repair or to refuse)
+            deep = not ctx.quick and cfgs[cid].cls != "affix"
+            jobs.append({"cid": cid, "kinds": KINDS, "L": L1 if (ctx.quick or deep) else L1 - 1, "inv": ["PipeAgrees", "TypeOK", "Emit"]})
 
     Lr = ctx.pick(2, 3)
     extra_jobs = [{"name": "m_reask", "cfg": str(model_cfg(ctx, "m_reask", defaults, Lr, reverify, True, INV)), "workers": 2,
@@ -862,7 +866,7 @@ def run(ctx):
                 ctx.sample({"direction": "spec->code", "cfg": cid, "kind": kind, "inp": s, "model_predicts": "error" if case["err"] else to_s(case["out"]),
                             "model_stage_trace": [st["s"] + ("!" if st["x"] else "") for st in case["steps"]], "P_accepts_prediction": case["pok"],
                             "real": "error" if e else o})
-            ctx.distinct("m|%s|%s|%s|%s" % (cid, kind, "".join(st["s"][-1] + ("!" if st["x"] else "") for st in case["steps"]), sha(s)[:8]),
+            ctx.distinct("m|%s|%s|%s|%s" % (cid, kind, "".join(st["s"][-1] + ("!" if st["x"] else "") for st in case["steps"]), s),
                          nontrivial=bool(case["err"] or case["out"] != case["inp"]))
         obs.maybe_flush()
     ctx.cov["spec_to_code_cases"] = ncases
@@ -875,8 +879,9 @@ def run(ctx):
         ctx.cov.setdefault("design_findings", []).append("I => P is refuted in configurations where it was expected to hold: %s" % unexpected)
     if design:
         ctx.cov.setdefault("design_findings", []).append(
-            "%d terminal states of the model violate P, all in configurations %s (a failure handler's result is returned without being re-verified); "
-            "each was replayed against the real code, e.g. %r" % (len(design), sorted(set(d["cfg"] for d in design)), design[0]))
+            "%d terminal states of the model violate P, all in configurations %s%s; each was replayed against the real code, e.g. %r" % (
+                len(design), sorted(set(d["cfg"] for d in design)),
+                "" if unexpected else " (the c/c++ failure handlers' results are returned without being re-verified)", design[0]))
     _lap(ctx, "model runs + replay of every terminal state")
     # the configuration data is live, so a refuted invariant is a finding about the design under that data (the replayed executions above
     # are what P judges), never a machinery failure; anything else TLC complains about is.
@@ -914,8 +919,8 @@ def run(ctx):
     _lap(ctx, "self-tests")
 
     ctx.cov["rule"] = ("one case = one question (configuration, category, input) with all its observations; spec->code: every terminal state of "
-                       "Stropping.tla (all inputs <= %d chars over a 15-symbol alphabet for the 3 default configurations, <= %d for the %d override "
-                       "configurations, x 6 categories); code->spec: every configured reserved word x 18 variants, all single ASCII/pool characters, "
+                       "Stropping.tla (all inputs <= %d chars over a 15-symbol alphabet for the 3 default configurations, <= %d (affix overrides in the "
+                       "thorough tier: one less) for the %d override configurations, x 6 categories); code->spec: every configured reserved word x 18 variants, all single ASCII/pool characters, "
                        "pattern-shaped strings, %d seeded random strings; distinct = (configuration, category, stage path or class, input hash); "
                        "non-trivial = the filter changed the input or raised" % (L0, L1, len(cfgs) - 3, n_rand))
     ctx.cov["exhaustive"] = False
